@@ -1226,6 +1226,7 @@ package url
 //@           && (forall k int :: 0 <= k && k < old(len(s.params)) ==> s.params[k] == old(s.params[k])))   [C11 set-appends-when-absent]
 //@   ensures forall a int, b int :: (0 <= a && a < b && b < len(s.params) && s.params[a].Name == name) ==> s.params[b].Name != name   [C11 set-leaves-one]
 //@   ensures forall k int :: (0 <= k && k < len(s.params) && s.params[k].Name == name) ==> s.params[k].Value == value   [C11 set-value]
+//@   ensures exists k int :: 0 <= k && k < len(s.params) && s.params[k].Name == name && s.params[k].Value == value   [C11 set-leaves-a-pair-with-the-name]
 //@   loop 1 modifies s.params[..], all(s.params).Value
 //@   loop 1 invariant s.params == pre(s.params)
 //@   loop 1 invariant isSet == (exists j int :: 0 <= j && j < $i && pre(s.params[j].Name) == name)
